@@ -20,6 +20,7 @@ REGISTRY = {
     "C06": ("checks_sess", "check_c06"),
     "C09": ("checks_sess", "check_c09"),
     "C10": ("checks_sess", "check_c10"),
+    "C13": ("checks_wait", "check_c13"),
     "C15": ("checks_sess", "check_c15"),
     "C19": ("checks_sess", "check_c19"),
     "C07": ("checks_fec", "check_c07"),
